@@ -65,7 +65,15 @@ pub fn run(ctx: &mut Ctx) {
         let alpha = alpha_pick(rng);
         let rate = RATES[idx % RATES.len()];
         let target = if rng.chance(0.2) { 2.0 } else { rng.uniform(0.05, 2.0) };
-        let c = random_cepstrum(rng, order, alpha, target);
+        let mut c = random_cepstrum(rng, order, alpha, target);
+        // the gain term is unconstrained by the property: very small and very large gains too
+        if idx % 3 == 0 {
+            c[0] = match rng.below(4) {
+                0 => rng.uniform(-20.0, -10.0),
+                1 => rng.uniform(6.0, 12.0),
+                _ => rng.uniform(-10.0, 6.0),
+            };
+        }
         let shape = shape_of(&c, alpha);
         let p = rate / 20;
         let voc = Vocoder::new(order, 0, 0, false, rate, alpha, 0.0, 1.0, p);
@@ -110,7 +118,7 @@ pub fn run(ctx: &mut Ctx) {
             );
         }
         // c0 law: the response scales with exp(c0)
-        let dc = rng.uniform(-1.5, 1.5);
+        let dc = if rng.chance(0.3) { rng.uniform(-12.0, 8.0) } else { rng.uniform(-1.5, 1.5) };
         let mut c2 = c.clone();
         c2[0] += dc;
         let st2 = steady_state(voc, &c2, p, st.frames_used, 0.0);
